@@ -395,6 +395,35 @@ func suiteAppAuth(e *vh.Env) {
 		e.Eval("separator-ids:"+victim+"|"+attacker, true)
 		e.Count("separator-ids")
 	}
+	// a GET answer remembered by the proxy, then the backend goes away: without a live matching backend the answer
+	// is 404 whatever an earlier request left behind (the decision depends only on backends, user and path)
+	{
+		b := aeBackend{"cg", "cg-agent@svc", "cg-user@x", []string{"/cg"}}
+		registerBackend(e, b)
+		lv := goLive(e, b)
+		uc := async(func() (int, http.Header, []byte) {
+			return userCall(b.endUser, false, "cg-1", "GET", "/cg/page?x=1", nil, nil)
+		})
+		await(lv, 35*time.Second)
+		agentCall(b.agent, b.id, "cg-1", "/agent/response", "POST", httpResponseBytes("200 OK", nil, []byte("remembered-page")))
+		r1, ok := await(uc, 10*time.Second)
+		if ok && r1.Status == 200 {
+			if st, _, body := apiCall(adminOAuth, true, "DELETE", "/api/backends/"+b.id, nil); st != 200 {
+				e.Fail("C17:setup-delete-backend", fmt.Sprintf("deleting backend %s: %d %s", b.id, st, body), -1, nil, nil, nil)
+			}
+			for _, path := range []string{"/cg/page?x=1", "/cg/other"} {
+				ch := async(func() (int, http.Header, []byte) { return userCall(b.endUser, false, "cg-2", "GET", path, nil, nil) })
+				r2, ok2 := await(ch, 3*time.Second)
+				if !ok2 || r2.Status != 404 {
+					e.Fail("C18:answered-without-live-backend", fmt.Sprintf("user %s GET %s after the only matching backend was deleted: status %d body %q (answered before: %v), want 404", b.endUser, path, r2.Status, truncBytes(r2.Body, 40), path == "/cg/page?x=1"), -1, nil, r2.Status, 404)
+				}
+			}
+		} else {
+			e.Fail("C18:setup-cached-get", fmt.Sprintf("first GET: ok=%v status %d", ok, r1.Status), -1, nil, nil, nil)
+		}
+		e.Eval("cached-get-then-backend-deleted", true)
+		e.Count("cached-get-then-backend-deleted")
+	}
 	// unauthorised list calls (cannot block: rejected before any wait)
 	for _, c := range []struct{ id, bid string }{{"", "b1"}, {"agent2@svc", "b1"}, {"stranger@svc", "b2"}, {"agent1@svc", "nope"}, {"agent1@svc", ""}} {
 		st, _, _ := agentCall(c.id, c.bid, "", "/agent/pending", "GET", nil)
